@@ -436,6 +436,20 @@ func createHandler(router *server.Router) http.HandlerFunc {
 	corsOrigin := os.Getenv("GLYPH_CORS_ORIGIN")
 
 	return func(w http.ResponseWriter, r *http.Request) {
+		// A panic anywhere below (route body, provider call, middleware) must
+		// reach the client as a generic 500. Without this net/http's own
+		// recovery just drops the connection.
+		defer func() {
+			if rec := recover(); rec != nil {
+				printError(fmt.Errorf("panic serving %s %s: %v", r.Method, r.URL.Path, rec))
+				w.Header().Set("Content-Type", "application/json")
+				w.WriteHeader(http.StatusInternalServerError)
+				json.NewEncoder(w).Encode(map[string]string{
+					"error": "Internal server error",
+				})
+			}
+		}()
+
 		// Apply CORS headers when configured
 		if corsOrigin != "" {
 			w.Header().Set("Access-Control-Allow-Origin", corsOrigin)
